@@ -1,6 +1,7 @@
 import Iota.Driver.Util
 import Iota.Model.Curl
 import Iota.Spec.CurlP
+import Iota.Model.AsmSem
 
 /-!
 Driver ops for C06 / C20.
@@ -90,9 +91,16 @@ def ops : List (String × Handler) := [
     | [l, h] => match planeOfHex l, planeOfHex h with
       | some lp, some hp =>
         let z : Plane := Vector.replicate 729 0
-        match transformGeneric { lto := z, hto := z, lfrom := lp, hfrom := hp } with
-        | some b => hexOfPlane b.lto ++ " " ++ hexOfPlane b.hto
-        | none => "panic"
+        -- the portable model and the assembly interpreter (Iota/Model/AsmSem.lean) on the same planes
+        match transformGeneric { lto := z, hto := z, lfrom := lp, hfrom := hp },
+              Iota.Asm.runProgram z z lp hp 700000 with
+        | some b, .done m =>
+          if b.lto == m.lto && b.hto == m.hto && b.lfrom == m.lfrom && b.hfrom == m.hfrom then
+            hexOfPlane b.lto ++ " " ++ hexOfPlane b.hto
+          else "ASM-MODEL-DIFFERS"
+        | none, _ => "panic"
+        | _, .fault => "asm-fault"
+        | _, .outOfFuel => "asm-out-of-fuel"
       | _, _ => badOp
     | _ => badOp)
 ]
